@@ -5,7 +5,7 @@ from vlib.engines.base import drive, run_trace
 
 PROP = "C06"
 FUZZ_ENGINE = bc.BCEngine  # fuzz/traces.py (coverage-guided trace search, thorough tier)
-TECHNIQUE = "model-based stateful property testing (Hypothesis-driven operation sequences against a reference model of the request table), scheduler-owned byte-stream chunking and reply ordering; ddmin-shrunk traces"
+TECHNIQUE = "model-based stateful property testing (Hypothesis-driven operation sequences against a reference model of the request table), scheduler-owned byte-stream chunking and reply ordering; ddmin-shrunk traces; plus coverage-guided fuzzing of the same trace driver (atheris/libFuzzer mutating Hypothesis' choice sequence; fuzz/traces.py)"
 RULE = (
     "traces over one real _KafkaBrokerClient and a scripted peer: makeRequest (fresh id / id of an in-flight request / id reused "
     "after completion; reply-expecting or not), cancel, accept/refuse connect, peer frames for received, answered, cancelled and "
